@@ -29,8 +29,45 @@ fn flush_history(plan: &Plan) -> ! {
     finish(&v, plan)
 }
 
+/// histogram (sampling off): record(a); flush || record(x); flush; flush -- native search for the position of the concurrent record
+/// inside the flush at which a value is sent in no flush or in two (the solver has decided that such a position exists)
+fn histogram_flush_vs_record(plan: &Plan) -> ! {
+    let (a, x) = (1.25f64, 7.5f64);
+    let key = metrics::Key::from_static_name("c10_hist");
+    let mut v: Vec<&str> = vec![];
+    for p in 0..600usize {
+        let mut h = metrics_exporter_dogstatsd::verif::FlushHarness::new(false);
+        let hist = h.histogram(&key);
+        hist.record(a);
+        let mut sched = vec![1usize; p];
+        sched.extend(std::iter::repeat(2usize).take(4000));
+        install(sched);
+        let hist2 = hist.clone();
+        let t1 = std::thread::spawn(move || { set_thread(1); let p1 = h.flush(); thread_done(); (h, p1) });
+        let t2 = std::thread::spawn(move || { set_thread(2); hist2.record(x); thread_done(); });
+        let (mut h, p1) = t1.join().unwrap();
+        t2.join().unwrap();
+        let (pos, _) = consumed();
+        install(vec![]);
+        let p2 = h.flush();
+        let p3 = h.flush();
+        let text = |ps: &Vec<Vec<u8>>| ps.iter().map(|p| String::from_utf8_lossy(p).to_string()).filter(|l| l.starts_with("c10_hist:")).collect::<Vec<_>>().join("");
+        let all = format!("{}{}{}", text(&p1), text(&p2), text(&p3));
+        let count = |needle: &str| all.matches(needle).count();
+        let (nx, na) = (count(":7.5"), count(":1.25"));
+        if nx != 1 || na != 1 {
+            println!("record() after {} steps of the flush: value recorded during the flush sent {} times, earlier value {} times; flushes: {:?} / {:?} / {:?}", p, nx, na, text(&p1), text(&p2), text(&p3));
+            v.push("every_value_in_exactly_one_flush");
+            break;
+        }
+        if pos < p { println!("the flush has {} instrumented steps; every position tried", pos); break; }
+    }
+    finish(&v, plan)
+}
+
 fn main() {
     let plan = load_plan(&std::env::args().nth(1).expect("plan"));
+    if plan.scenario == "c10_histogram_flush_vs_record" { histogram_flush_vs_record(&plan); }
     if plan.scenario == "c10_flush_history" { flush_history(&plan); }
     let a = plan.inputs.get("a").copied().unwrap_or(0);
     let b = plan.inputs.get("b").copied().unwrap_or(0);
